@@ -302,12 +302,16 @@ def gen_packet(rng, spec: dict, maxlen: int = 12) -> Any:
     if k == "autosep":
         sep = bytes.fromhex(spec["sep"])
         alphabet = bytes(set(sep)) + b"ab"
+        ser = build(spec)
         while True:
             n = rng.randint(1, maxlen)
             p = bytes(rng.choice(alphabet) for _ in range(n))
-            if p[:1] == b"\xff":
+            if p[:1] == b"\xff" or p.endswith(sep):
                 continue
-            if (p + sep).find(sep) != len(p):
+            # valid = what the producer itself accepts (its separator check raises ValueError otherwise)
+            try:
+                list(ser.incremental_serialize(p))
+            except ValueError:
                 continue
             return p
     if k == "fixed":
